@@ -154,8 +154,14 @@ def volume(n_fp=4):
     return b"".join(bytes(p) for p in parts)
 
 
-def image(truth, level):
-    """truth: IU2 (N,P) uint16 / C*8 (N,P,2) uint32 bit patterns -> (bytes, extents)"""
+DAY_MS = 86400000
+
+
+def image(truth, level, t0_ms=45296789, dt_ms=1):
+    """truth: IU2 (N,P) uint16 / C*8 (N,P,2) uint32 bit patterns -> (bytes, extents)
+
+    line i is stamped t0_ms + i*dt_ms milliseconds after 2020-02-29T00:00 (day of year 60): an
+    acquisition may cross midnight, in which case day-of-year advances and the time of day wraps"""
     n_lines, n_px = truth.shape[:2]
     prefix = PREFIX[level]
     if level == "1.1":
@@ -179,9 +185,10 @@ def image(truth, level):
         r[:12] = _preamble(i + 2, 50, rt, 18, 20, reclen)
         r[12:16] = struct.pack(">I", i + 1)   # line number
         r[16:20] = struct.pack(">I", 1)       # record index
-        r[36:48] = struct.pack(">III", 2020, 60, 45296789 + i)
+        t = t0_ms + i * dt_ms
+        r[36:48] = struct.pack(">III", 2020, 60 + t // DAY_MS, t % DAY_MS)
         if level == "1.1":
-            r[SIGNAL_ACQ_US:SIGNAL_ACQ_US + 8] = struct.pack(">Q", (45296789 + i) * 1000 + 7)
+            r[SIGNAL_ACQ_US:SIGNAL_ACQ_US + 8] = struct.pack(">Q", (t % DAY_MS) * 1000 + 7)
         out.append(bytes(r) + raw[i].tobytes())
         extents.append((pos, pos + prefix, pos + reclen))
         pos += reclen
@@ -242,7 +249,7 @@ def build(plan):
         name = f"IMG-{im['pol']}-{SCENE}-{pid}" + (f"-{im['scan']}" if im.get("scan") else "")
         t, planted = make_truth(level, im["lines"], im["pixels"], plan["data_seed"] * 131 + k,
                                 plan.get("mode", "normal"), im.get("n_special", 0))
-        data, ext = image(t, level)
+        data, ext = image(t, level, plan.get("t0_ms", 45296789), plan.get("dt_ms", 1))
         p.files[name] = data
         p.truth[name] = t
         p.extents[name] = ext
@@ -300,6 +307,9 @@ def gen_plan(rng, max_lines=40, max_pixels=32, max_images=8, level=None, big=Fal
             return rng.randint(2, 8), rng.randint(1, 8)
         if big and c < 0.55:
             return rng.randint(1500, 3000), rng.randint(1, 4)
+        if c > 0.94:
+            # few, very wide lines (records of up to ~32 kB)
+            return rng.randint(2, 8), int(2 ** rng.uniform(5, 12))
         return rng.randint(1, max_lines), rng.randint(1, max_pixels)
 
     base = shape()
@@ -319,4 +329,9 @@ def gen_plan(rng, max_lines=40, max_pixels=32, max_images=8, level=None, big=Fal
         "fac_len": [rng.randint(70, 600) for _ in range(4)],
         "extra_files": rng.choice([[], [], ["README.txt"], ["KML-browse.kml", "notes.index"]]),
     }
+    # acquisition time base: mostly mid-day, sometimes crossing midnight inside the image
+    n_max = max(im["lines"] for im in images)
+    plan["t0_ms"] = rng.choice([45296789, 45296789, 45296789, DAY_MS - 3, DAY_MS - 1,
+                                DAY_MS - max(n_max // 2, 1), 0])
+    plan["dt_ms"] = rng.choice([1, 1, 1, 2, 1000])
     return plan
